@@ -238,9 +238,9 @@ def constraint_web_blocks(g, n, nlines=14):
         for o in owners:
             others = [j for j in idx if j != o]
             cfg["args"][o - 1][r.choice(["req", "req", "exc"])] = r.sample(others, r.choice([1, 1, 2]))
-            cfg["args"][o - 1]["cspell"] = r.choice([0, 1, 2])
+            cfg["args"][o - 1]["cspell"] = r.choice([0, 1, 2, 3])
         if r.random() < 0.3:
-            cfg["hcons"].append({"k": r.choice(["allOf", "anyOf", "oneOf"]), "args": sorted(r.sample(idx, 2)), "cspell": r.choice([0, 1, 2]), "grp": 0})
+            cfg["hcons"].append({"k": r.choice(["allOf", "anyOf", "oneOf"]), "args": sorted(r.sample(idx, 2)), "cspell": r.choice([0, 1, 2, 3, 3]), "grp": 0})
         use = lambda i: [i, []] if cfg["args"][i - 1]["kind"] == "flag" else [i, [str(r.randint(0, 9))]]
         acts = []
         for _ in range(nlines):
